@@ -77,7 +77,7 @@ func serverTasks() []simrt.TaskInfo {
 
 func runC10(rc *RunCtx) {
 	G := rc.G
-	U := genKeys(G, 2+G.Draw(4), "")
+	U := withRotations(G, genKeys(G, 2+G.Draw(4), ""))
 	var good *mCfg
 	for tries := 0; ; tries++ {
 		good = genCfg(G, U, nil, 3)
